@@ -130,9 +130,15 @@ def _merge_type(a: Union[List[str], str], b: Union[List[str], str]) -> List[str]
 
 def _merge_enums(a: List[any], b: List[any]) -> List[any]:
     # TODO: we assume string lists, we is not generic
-    a = set(a)
-    b = set(b)
-    return list(a & b)
+    # JSON tells booleans from numbers (true != 1), Python's == does not
+    def key(value):
+        return (isinstance(value, bool), value)
+    keys_b = set(key(i) for i in b)
+    result = {}
+    for i in a:
+        if key(i) in keys_b:
+            result.setdefault(key(i), i)
+    return list(result.values())
 
 
 def _float_gcd(a, b, rtol=1e-05, atol=1e-08):
